@@ -104,7 +104,7 @@ def make_case(family, i, rng, tier):
         mod = _base(bname)
         plan_b = mod.plan(tier)
         fams = [f for f, _ in plan_b
-                if f not in ('headers', 'big', 'sweep', 'stall')]
+                if f not in ('headers', 'big', 'sweep', 'stall', 'reconnect')]
         fam = rng.choice(fams)
         cnt = dict(plan_b)[fam]
         sub = random.Random(rng.getrandbits(64))
